@@ -49,7 +49,6 @@ Proof.
   unfold issue_code in Hiss. injection Hiss as _ <-.
   cbn [t_at_sub t_sub t_azp t_aud t_jwt t_scope t_nonce].
   repeat split; auto.
-  - intro Hin. unfold id_sub. apply string_in_In in Hin. rewrite Hin, orb_true_r. reflexivity.
   - unfold aud_with. cbn. rewrite String.eqb_refl. cbn. auto.
   - intros x. destruct (c_jwt c); [|discriminate]. intros [= <-].
     apply find_client_id in Hfc as [Hid _]. exact Hid.
